@@ -29,6 +29,10 @@ pub struct PricePair {
 
 #[derive(Clone, Debug)]
 pub struct OracleView {
+    /// venue-backed Pyth banks: an adjusted mantissa lies within the reference's own error band
+    /// around the integer type's limit - whether the program prices it or reports the overflow
+    /// cannot be told from exact arithmetic, both are right
+    pub in_band: bool,
     pub spot: PricePair,
     pub ema: PricePair,
     /// venue-backed banks: bound on |program's exchange-rate-adjusted price - exact adjusted
@@ -76,6 +80,7 @@ pub fn read_oracle(store: &Store, bank: &Bank, clock: SimClock) -> Result<Oracle
                 conf_raw: Q::zero(),
             };
             Ok(OracleView {
+                in_band: false,
                 spot: pp.clone(),
                 ema: pp,
                 adj_err: Q::zero(),
@@ -125,6 +130,7 @@ pub fn read_oracle(store: &Store, bank: &Bank, clock: SimClock) -> Result<Oracle
             };
             let cm = qr(212, 100);
             Ok(OracleView {
+                in_band: false,
                 spot: PricePair {
                     price: scale(adjm(p.price)?, p.exponent),
                     conf: scale(p.conf as i128, p.exponent) * &cm,
@@ -161,6 +167,7 @@ pub fn read_oracle(store: &Store, bank: &Bank, clock: SimClock) -> Result<Oracle
             };
             let cm = qr(212, 100);
             Ok(OracleView {
+                in_band: false,
                 spot: PricePair {
                     price: scale(p.price as i128, p.exponent),
                     conf: scale(p.conf as i128, p.exponent) * &cm,
@@ -195,6 +202,7 @@ pub fn read_oracle(store: &Store, bank: &Bank, clock: SimClock) -> Result<Oracle
                 conf_raw: qi(s.std_dev) / pow10(18),
             };
             Ok(OracleView {
+                in_band: false,
                 spot: pp.clone(),
                 ema: pp,
                 adj_err: Q::zero(),
@@ -230,11 +238,15 @@ pub fn read_oracle(store: &Store, bank: &Bank, clock: SimClock) -> Result<Oracle
             let rate = vr.rate.clone().unwrap_or_else(|| qi(1));
             // program: mantissa' = floor(mantissa * ratio_fx): at most |m| * d_r + 1 mantissa units
             // below/above the exact product; the result must fit the mantissa's integer type
+            let band = std::cell::Cell::new(false);
             let adj = |m: i128, lim: i128| -> Result<(Q, Q), OracleBad> {
                 let x = qi(m) * &rate;
                 let e = if vr.rate.is_some() { qi(m.abs()) * &vr.d_r + qi(1) } else { Q::zero() };
                 if x.abs() > qi(lim) + &e {
                     return Err(OracleBad::OutOfRange);
+                }
+                if x.abs() > qi(lim) - &e {
+                    band.set(true);
                 }
                 Ok((x, e))
             };
@@ -245,6 +257,7 @@ pub fn read_oracle(store: &Store, bank: &Bank, clock: SimClock) -> Result<Oracle
             let cm = qr(212, 100);
             let emax = model::q_max(model::q_max(e1, e3), model::q_max(e2, e4) * &cm);
             Ok(OracleView {
+                in_band: band.get(),
                 spot: PricePair {
                     price: scale(&sp, p.exponent),
                     conf: scale(&sc, p.exponent) * &cm,
@@ -295,6 +308,7 @@ pub fn read_oracle(store: &Store, bank: &Bank, clock: SimClock) -> Result<Oracle
                 conf_raw: &sd / pow10(18),
             };
             Ok(OracleView {
+                in_band: false,
                 spot: pp.clone(),
                 ema: pp,
                 adj_err: (model::q_max(ev, es * qr(196, 100))) / pow10(18),
@@ -471,6 +485,9 @@ pub struct Health {
     pub n_isolated_liabs: usize,
     /// some asset position was valued 0 because of a bad oracle
     pub any_zeroed: bool,
+    /// some collateral's venue-adjusted price is inside the reference's error band around the
+    /// mantissa limit: the program may rightly have zero-valued it (overflow reported)
+    pub any_uncertain: bool,
 }
 
 impl Health {
@@ -540,6 +557,7 @@ pub fn health(store: &Store, acc: &MarginfiAccount, req: Req, clock: SimClock) -
         n_liabs: 0,
         n_isolated_liabs: 0,
         any_zeroed: false,
+        any_uncertain: false,
     };
     let u = ulp();
     for b in acc.lending_account.balances.iter().filter(|b| b.active != 0) {
@@ -599,7 +617,13 @@ pub fn health(store: &Store, acc: &MarginfiAccount, req: Req, clock: SimClock) -
                 push_zero(&mut h, false);
                 continue;
             }
-            let priced = read_oracle(store, &bank, clock)
+            let view = read_oracle(store, &bank, clock);
+            if let Ok(v) = &view {
+                if v.in_band {
+                    h.any_uncertain = true;
+                }
+            }
+            let priced = view
                 .map_err(PriceErr::Oracle)
                 .and_then(|v| biased(&v, &bank, ema).map(|b| (b.0, biased_price_err(&v, ema))));
             let (low, dp) = match priced {
